@@ -540,6 +540,17 @@ fn replay(args: &Args) {
                                         b.clone(),
                                     );
                                 }
+                                // ... and in the state the SPECIFICATION computes at the dependencies (the
+                                // replica's own state may itself be wrong, e.g. a wrong merge of branches)
+                                if got && !authorized(&h.views[d], *author, kind, *member) {
+                                    viol(
+                                        &mut out,
+                                        "C33",
+                                        "unauthorized-accepted:per-spec-state",
+                                        format!("attempt {attempt} accepted; in the state at its dependencies per the specification ({:?}) the author is not an active manager / the action is not valid (the replica itself reports {view_at_d:?} there)", h.views[d]),
+                                        b.clone(),
+                                    );
+                                }
                                 if got != expect {
                                     viol(&mut out, 
                                         "C33",
